@@ -474,6 +474,12 @@ impl Debugger {
         self.watchpoints
             .clear_all(self.debugee.tracee_ctl(), &mut self.breakpoints);
 
+        // a thread may have reached a breakpoint without this being reported yet
+        self.debugee
+            .tracee_ctl()
+            .tracee_iter()
+            .for_each(|t| _ = t.discard_pending_trap());
+
         let current_tids: Vec<Pid> = self
             .debugee
             .tracee_ctl()
@@ -1255,6 +1261,12 @@ impl Drop for Debugger {
             // drain all watchpoints before terminating the process
             self.watchpoints
                 .clear_all(self.debugee.tracee_ctl(), &mut self.breakpoints);
+
+            // a thread may have reached a breakpoint without this being reported yet
+            self.debugee
+                .tracee_ctl()
+                .tracee_iter()
+                .for_each(|t| _ = t.discard_pending_trap());
 
             let current_tids: Vec<Pid> = self
                 .debugee
